@@ -748,3 +748,92 @@ def gen_jitops_program(rng):
     k = max(1, len(obs) // 2)
     # every observation is a top-level form of its own: the values are compared position by position
     return {"pieces": ["\n".join(forms) + "\n" + "\n".join(obs[:k]), "\n".join(obs[k:])]}
+
+
+# ------------------------------------------------------------------------------------------------------
+# Procedures with 5-9 parameters (parameters beyond the fourth take the generic READLOCAL / MOVEREADLOCAL paths of
+# the code generators), every parameter used several times in ONE expression - first as a plain operand, later,
+# for the last time, as argument of an inner call -, really called (through apply / map / as first-class values).
+
+_MP_KINDS = {
+    "list": (["(list 10 20)", "(list 1 2 3)", "'(x y z)", "(list 5)", "(list (list 1) 2)"],
+             ["(reverse %s)", "(length %s)", "(car %s)", "(cdr %s)", "(append %s %s)", "(list %s)", "(cons 0 %s)", "(map (lambda (q) q) %s)"]),
+    "int": (["1", "7", "-3", "100", "4611686018427387904"],
+            ["(+ %s 1)", "(* %s 2)", "(list %s)", "(- %s)", "(number->string %s)", "(max %s 0)", "(vector %s)"]),
+    "str": (["\"ab\"", "\"\"", "\"Hello\"", "\"x y\""],
+            ["(string-upcase %s)", "(string-length %s)", "(string-append %s \"!\")", "(list %s)", "(string->symbol %s)"]),
+}
+_MP_OUTER = ["list", "vector", "cons*", "list"]
+
+
+def gen_manyparams_program(rng):
+    forms = ["(define (call f . args) (apply f args))"]
+    obs = []
+    for i in range(rng.randint(2, 4)):
+        n = rng.randint(5, 9)
+        kinds = [rng.choice(["list", "int", "str"]) for _ in range(n)]
+        ps = ["p%d" % k for k in range(n)]
+        # the expression: for some parameters `p` then (later) `(inner p)`; later parameters preferred
+        chosen = sorted(set(rng.sample(range(n), rng.randint(2, min(4, n))) + [n - 1, rng.randint(4, n - 1)]))
+        operands, tail = [], []
+        for k in chosen:
+            inner = rng.choice(_MP_KINDS[kinds[k]][1])
+            inner = inner % ((ps[k],) * inner.count("%s"))
+            shape = rng.choice(["plain-then-inner", "plain-then-inner", "plain-plain-inner", "inner-only"])
+            if shape == "plain-then-inner":
+                operands += [ps[k], inner]
+            elif shape == "plain-plain-inner":
+                operands += [ps[k], ps[k], inner]
+            else:
+                operands += [inner]
+        if rng.random() < 0.4:
+            # nested: the last use sits two calls deep
+            k = chosen[-1]
+            operands = [ps[k], "(list (list %s))" % rng.choice(_MP_KINDS[kinds[k]][1]).replace("%s", ps[k])] + operands[:4]
+        body = "(%s %s)" % (rng.choice(["list", "vector", "list"]), " ".join(operands))
+        forms.append("(define (m%d %s) %s)" % (i, " ".join(ps), body))
+        for _ in range(rng.randint(1, 3)):
+            args = [rng.choice(_MP_KINDS[kinds[k]][0]) for k in range(n)]
+            # a computed operator with 9 or more operands is finding K02l (no native call helper): keep the
+            # first-class-value form to procedures with at most 8 parameters
+            # (K02m likewise: a `(list ...)` of 9 or more operands as operand of apply)
+            how = rng.choice(["call", "apply", "map", "value"] if n <= 8 else ["call", "map"])
+            if how == "call":
+                obs.append("(call m%d %s)" % (i, " ".join(args)))
+            elif how == "apply":
+                obs.append("(apply m%d (list %s))" % (i, " ".join(args)))
+            elif how == "map":
+                obs.append("(map m%d %s)" % (i, " ".join("(list %s %s)" % (a, a) for a in args)))
+            else:
+                obs.append("((car (list m%d)) %s)" % (i, " ".join(args)))
+    return {"pieces": ["\n".join(forms), "\n".join("(with-handler (lambda (e) 'err) %s)" % o for o in obs)],
+            "module": "\n".join(forms) + "\n" + "\n".join("(displayln (with-handler (lambda (e) 'err) %s))" % o for o in obs) + "\n"}
+
+
+# ------------------------------------------------------------------------------------------------------
+# The same compiled procedure handed out more than once: serialised / deserialised several times, given to several
+# native threads (deterministic: every thread is joined before its result is used).
+
+def gen_sendtwice_program(rng):
+    forms, obs = [], []
+    for i in range(rng.randint(1, 3)):
+        k = rng.randint(1, 9)
+        body = rng.choice(["(+ x %d)", "(* x %d)", "(list x %d)", "(if (< x %d) (- x) x)"]) % k
+        forms.append("(define (s%d x) %s)" % (i, body))
+        times = rng.randint(2, 3)
+        how = rng.choice(["serialize", "serialize", "thread", "mixed"])
+        for t in range(times):
+            if how == "serialize" or (how == "mixed" and t % 2 == 0):
+                forms.append("(define s%d-copy%d (deserialize-value (serialize-value s%d)))" % (i, t, i))
+                obs.append("(s%d-copy%d %d)" % (i, t, 10 * (t + 1)))
+            else:
+                forms.append("(define s%d-th%d (spawn-native-thread (lambda () (s%d %d))))" % (i, t, i, 10 * (t + 1)))
+                obs.append("(thread-join! s%d-th%d)" % (i, t))
+        obs.append("(s%d 30)" % i)
+    # at top level `serialize-value` of a procedure fails in every configuration (no module context), so the
+    # top-level variant keeps only the thread forms; the module variant has both
+    tl_forms = [f for f in forms if "serialize-value" not in f]
+    tl_obs = [o for o in obs if "-copy" not in o]
+    text = "\n".join(tl_forms) + "\n" + "\n".join(tl_obs)
+    return {"pieces": [text],
+            "module": "\n".join(forms) + "\n" + "\n".join("(displayln %s)" % o for o in obs) + "\n"}
